@@ -84,7 +84,7 @@ CHECKS['C14'] = {
     'level_text': 'Unbounded deductive proof (Verus) on the verbatim text of SourceManager::{new,add_file,get_source_location_from_file_offset,get_file_location}, SourceLocation, Line, Column: '
                   'the location table partitions the location space, and a location inside file f at offset o is reported as (name of f, 1 + number of newlines before o, 1 + o - start of the line); '
                   'a lemma shows that inserting k complete lines in front adds exactly k to the line and leaves the column unchanged; a non-empty file\'s token sequence ends with Endline whatever trivia it ends in. '
-                  'Kani (bounded): get_file_location through the SourceManager API on two small files; block_comment ends at the first */ at or after byte 2 (inputs <= 8 bytes).',
+                  'trim_whitespace_start / _end / trim_whitespace (the view every directive handler has of its argument tokens): exactly the blanks, comments and line splices at both ends are removed, whatever their number, and nothing else. Kani (bounded): get_file_location through the SourceManager API on two small files; block_comment ends at the first */ at or after byte 2 (inputs <= 8 bytes).',
     'level_note': 'Partial: the position function and the table only. NOT decided: that trivia insertion leaves the compiler output unchanged (needs lexer + macro expander + parser), '
                   'that every diagnostic carries the right location. Assumed: String::as_bytes/len model (uninterpreted byte sequence), derived Clone of FileName = identity. '
                   'Precondition not proved of callers: total source bytes < 2^32 - 1.',
